@@ -76,6 +76,24 @@ CLAIMED = {
         technique="contract-based deductive verification: generated getters cut from the real recompiler's output and "
                   "instantiated per integer type, loop-body contracts, ghost call traces; cvc (clang AST -> z3/cvc5)",
     ),
+    'C27': dict(
+        category='proof',
+        text="The cache of unique ctypes is verified as an invariant over ghost state (the dict by key content, weak "
+             "references, the set of live ctype objects): I1 a live entry is filed under its referent's key, I2 every "
+             "live ctype with a key is the referent of the entry under that key -- hence two live ctypes with the same "
+             "key are one object. get_or_insert_unique_type returns the live ctype filed under the key or installs "
+             "the new one; remove_dead_unique_reference removes only a dead entry (a type rebuilt under the same key "
+             "keeps its entry); ctypedescr_dealloc leaves no entry referring to the dying type; each re-establishes "
+             "the invariant, so it holds after any history. get_unique_type files a type under the content of its key "
+             "words; new_pointer_type and new_array_type use exactly (item type) and (pointer type, length) as key.",
+        design_ref='DESIGN.md section 4 C27',
+        note=COMMON_NOTE + "The dict / weakref / bytes C-API functions are assumed contracts over the ghost state "
+             "(keys compared by content). A-REFCNT: when ctypedescr_dealloc runs is CPython's business. Not under "
+             "contract: new_function_type's key (variable length), new_primitive_type, new_void_type, the Python-level "
+             "model.global_cache. The invariant's satisfiability is shown by a witness obligation (empty cache).",
+        technique="contract-based deductive verification: quantified cache invariant over ghost maps, preserved by every "
+                  "operation; cvc (clang AST -> z3/cvc5)",
+    ),
     'C20': dict(
         category='proof',
         text="ffi.new under contract: allocate_owning_object / allocate_with_allocator give a zero-filled data area of "
@@ -347,6 +365,24 @@ CLAIMED = {
              "(from_buffer item counts), keep-alive and export locking.",
         technique="contract-based deductive verification of the buffer object's operations against a byte-array "
                   "model (frame conditions: exactly the addressed bytes change); cvc (clang AST -> z3/cvc5)",
+    ),
+    'C29': dict(
+        category='proof',
+        text="The closure allocator of malloc_closure.h is verified under a representation invariant of its free list "
+             "over ghost state (free set, live set, rank, length): cffi_closure_alloc hands out a block that was not "
+             "live -- so it differs from every live closure -- and makes exactly it live; cffi_closure_free makes "
+             "exactly its argument free; more_core links the blocks of a fresh mapping one by one (loop invariant with "
+             "ghost assignments); each re-establishes the invariant, so it holds after any history of creating and "
+             "dropping callbacks. b_callback binds the closure, through libffi's user_data, to the info tuple of exactly "
+             "its ctype and callable and makes the closure the cdata's C address; invoke_callback passes that "
+             "user_data on unchanged; cdataowninggc_dealloc gives the closure back exactly once.",
+        design_ref='DESIGN.md section 4 C29',
+        note=COMMON_NOTE + "Assumed: mmap returns memory disjoint from every block tracked so far; libffi's "
+             "ffi_prep_closure / trampoline; prepare_callback_info_tuple (C14's subject); A-REFCNT for when dealloc "
+             "runs; the free-threaded build's mutex is not the build verified. The invariant's satisfiability is shown "
+             "by a witness obligation (initial state).",
+        technique="contract-based deductive verification: representation invariant with ghost sets/ranks, ghost "
+                  "assignments at exits and loop ends, quantified obligations; cvc (clang AST -> z3/cvc5)",
     ),
     'C23': dict(
         category='proof', engine='pyvc',
